@@ -1,6 +1,442 @@
-//! Delta-debugging minimiser for replay files (filled in below).
-use crate::Args;
+//! Delta-debugging minimiser for replay files. A candidate is kept only if the
+//! *same violation class* is still observed. For C18 a change of scenario shape
+//! invalidates the schedule, so every candidate is re-searched: first the old
+//! choice list (its fallback rule makes it robust to small changes), then a
+//! bounded number of fresh seeded schedules; among failing schedules the one
+//! with the fewest context switches is kept.
 
-pub fn run(_a: &Args) -> i32 {
-    crate::die("minimise: not implemented yet")
+use crate::c11::{self, AisleOp, AisleScenario};
+use crate::c18;
+use crate::scenario::*;
+use crate::sim::{SchedSpec, Violation};
+use crate::{die, Args, ReplayFile};
+
+struct Budget {
+    execs: u64,
+    max: u64,
+}
+
+fn switches(choices: &[u16]) -> usize {
+    choices.windows(2).filter(|w| w[0] != w[1]).count()
+}
+
+/// Does `sc` still violate with class `class`? Returns the failing schedule (as
+/// an explicit choice list) with the fewest context switches found.
+fn fails(sc: &Scenario, class: &str, old: &[u16], search: u64, b: &mut Budget) -> Option<(Vec<u16>, Vec<Violation>)> {
+    if b.execs >= b.max {
+        return None;
+    }
+    let rp = c18::reference_phase(sc);
+    if rp.violations.iter().any(|v| v.class == class) {
+        return Some((vec![], rp.violations.clone()));
+    }
+    let mut best: Option<(Vec<u16>, Vec<Violation>)> = None;
+    let mut cands: Vec<SchedSpec> = vec![SchedSpec::List { choices: old.to_vec() }];
+    for s in 0..search {
+        cands.push(match s % 3 {
+            0 => SchedSpec::Random { seed: s, stay: 0 },
+            1 => SchedSpec::Random { seed: s, stay: 90 },
+            _ => SchedSpec::Pct { seed: s, depth: 3, est: (old.len() as u32).max(8) },
+        });
+    }
+    for (i, c) in cands.iter().enumerate() {
+        if b.execs >= b.max {
+            break;
+        }
+        b.execs += 1;
+        let (v, st) = c18::execute(&rp, c, false);
+        if v.iter().any(|x| x.class == class) {
+            let better = match &best {
+                None => true,
+                Some((ch, _)) => switches(&st.choices) < switches(ch),
+            };
+            if better {
+                best = Some((st.choices.clone(), v));
+            }
+            if i == 0 {
+                break; // the old schedule still works: good enough for a shape step
+            }
+        }
+    }
+    best
+}
+
+fn used_remap(sc: &mut Scenario) {
+    // drop parsers / inputs no operation refers to
+    let mut pu = vec![false; sc.parsers.len()];
+    let mut iu = vec![false; sc.inputs.len()];
+    for op in sc.all_ops() {
+        pu[op.parser] = true;
+        iu[op.input] = true;
+    }
+    let pmap: Vec<usize> = pu.iter().scan(0, |n, &u| { let r = *n; if u { *n += 1; } Some(r) }).collect();
+    let imap: Vec<usize> = iu.iter().scan(0, |n, &u| { let r = *n; if u { *n += 1; } Some(r) }).collect();
+    fn fix(op: &mut Op, pmap: &[usize], imap: &[usize]) {
+        op.parser = pmap[op.parser];
+        op.input = imap[op.input];
+        for f in &mut op.faults {
+            if let Fault::Reenter { op, .. } = f {
+                fix(op, pmap, imap);
+            }
+        }
+    }
+    for t in &mut sc.threads {
+        for op in t {
+            fix(op, &pmap, &imap);
+        }
+    }
+    sc.parsers = sc.parsers.iter().zip(&pu).filter(|(_, u)| **u).map(|(p, _)| p.clone()).collect();
+    sc.inputs = sc.inputs.iter().zip(&iu).filter(|(_, u)| **u).map(|(p, _)| p.clone()).collect();
+}
+
+fn shape_candidates(sc: &Scenario) -> Vec<Scenario> {
+    let mut v = Vec::new();
+    // drop a thread
+    if sc.threads.len() > 1 {
+        for t in 0..sc.threads.len() {
+            let mut c = sc.clone();
+            c.threads.remove(t);
+            v.push(c);
+        }
+    }
+    // drop an op
+    for t in 0..sc.threads.len() {
+        for o in 0..sc.threads[t].len() {
+            let mut c = sc.clone();
+            c.threads[t].remove(o);
+            if c.threads[t].is_empty() && c.threads.len() > 1 {
+                c.threads.remove(t);
+            }
+            if c.threads.iter().all(|t| t.is_empty()) {
+                continue;
+            }
+            v.push(c);
+        }
+    }
+    // drop a fault
+    for t in 0..sc.threads.len() {
+        for o in 0..sc.threads[t].len() {
+            for f in 0..sc.threads[t][o].faults.len() {
+                let mut c = sc.clone();
+                c.threads[t][o].faults.remove(f);
+                v.push(c);
+            }
+        }
+    }
+    // simplify an op
+    for t in 0..sc.threads.len() {
+        for o in 0..sc.threads[t].len() {
+            let op = &sc.threads[t][o];
+            let simpler: Vec<OpKind> = match &op.kind {
+                OpKind::Parse { via, cb, truncate } => {
+                    let mut s = Vec::new();
+                    if cb.is_some() {
+                        s.push(OpKind::Parse { via: via.clone(), cb: None, truncate: *truncate });
+                    }
+                    if truncate.is_some() {
+                        s.push(OpKind::Parse { via: via.clone(), cb: cb.clone(), truncate: None });
+                    }
+                    if *via == Via::Adapter && truncate.is_none() && !op.faults.iter().any(|f| matches!(f, Fault::IterPanic { .. } | Fault::Reenter { seam: crate::sim::SeamKind::Iter, .. })) {
+                        s.push(OpKind::Parse { via: Via::Direct, cb: cb.clone(), truncate: None });
+                    }
+                    s
+                }
+                OpKind::Metadata { via, cb } => {
+                    let mut s = Vec::new();
+                    if cb.is_some() {
+                        s.push(OpKind::Metadata { via: via.clone(), cb: None });
+                    }
+                    s
+                }
+                OpKind::Events { meta, take: Some(_) } => vec![OpKind::Events { meta: *meta, take: None }],
+                OpKind::ScaleConvert { .. } | OpKind::Render { .. } | OpKind::BuildAst => vec![OpKind::Parse { via: Via::Direct, cb: None, truncate: None }],
+                _ => vec![],
+            };
+            for k in simpler {
+                let mut c = sc.clone();
+                c.threads[t][o].kind = k;
+                if !matches!(c.threads[t][o].kind, OpKind::Render { .. }) {
+                    c.threads[t][o].faults.retain(|f| !matches!(f, Fault::Write { .. }));
+                }
+                v.push(c);
+            }
+        }
+    }
+    // fewer distinct parsers
+    for t in 0..sc.threads.len() {
+        for o in 0..sc.threads[t].len() {
+            if sc.threads[t][o].parser != 0 && sc.parsers[sc.threads[t][o].parser] == sc.parsers[0] {
+                let mut c = sc.clone();
+                c.threads[t][o].parser = 0;
+                v.push(c);
+            }
+        }
+    }
+    if sc.fresh_build {
+        let mut c = sc.clone();
+        c.fresh_build = false;
+        v.push(c);
+    }
+    v
+}
+
+fn input_candidates(sc: &Scenario) -> Vec<Scenario> {
+    let mut v = Vec::new();
+    for (i, text) in sc.inputs.iter().enumerate() {
+        let lines: Vec<&str> = text.split_inclusive('\n').collect();
+        if lines.len() > 1 {
+            // halves first, then single lines
+            let h = lines.len() / 2;
+            for keep in [&lines[..h], &lines[h..]] {
+                let mut c = sc.clone();
+                c.inputs[i] = keep.concat();
+                v.push(c);
+            }
+            for l in 0..lines.len() {
+                let mut c = sc.clone();
+                c.inputs[i] = lines.iter().enumerate().filter(|(j, _)| *j != l).map(|(_, s)| *s).collect();
+                v.push(c);
+            }
+        }
+        // drop words of a single line
+        if lines.len() <= 2 {
+            let words: Vec<&str> = text.split_inclusive(' ').collect();
+            if words.len() > 1 {
+                for w in 0..words.len() {
+                    let mut c = sc.clone();
+                    c.inputs[i] = words.iter().enumerate().filter(|(j, _)| *j != w).map(|(_, s)| *s).collect();
+                    v.push(c);
+                }
+            }
+        }
+    }
+    v
+}
+
+/// merge runs of the schedule to reduce context switches
+fn schedule_candidates(choices: &[u16]) -> Vec<Vec<u16>> {
+    let mut runs: Vec<(u16, usize)> = Vec::new();
+    for &c in choices {
+        match runs.last_mut() {
+            Some((t, n)) if *t == c => *n += 1,
+            _ => runs.push((c, 1)),
+        }
+    }
+    let mut v = Vec::new();
+    for r in 0..runs.len() {
+        // give this run's steps to the previous task (fallback handles non-runnable picks)
+        if r == 0 {
+            continue;
+        }
+        let mut c = Vec::new();
+        for (i, (t, n)) in runs.iter().enumerate() {
+            let task = if i == r { runs[r - 1].0 } else { *t };
+            c.extend(std::iter::repeat(task).take(*n));
+        }
+        v.push(c);
+    }
+    // and truncation: after the list ends, the fallback keeps the current task
+    if choices.len() > 4 {
+        v.push(choices[..choices.len() / 2].to_vec());
+        v.push(choices[..choices.len() * 3 / 4].to_vec());
+    }
+    v
+}
+
+fn minimise_c18(rf: &ReplayFile, max_execs: u64) -> ReplayFile {
+    let class = rf.class.clone();
+    let mut sc = rf.scenario.clone().unwrap();
+    let mut choices: Vec<u16> = match &rf.sched {
+        Some(SchedSpec::List { choices }) => choices.clone(),
+        _ => vec![],
+    };
+    let mut b = Budget { execs: 0, max: max_execs };
+    let mut viol = rf.violations.clone();
+    let mut notes = rf.notes.clone();
+    // the starting point must fail
+    match fails(&sc, &class, &choices, 0, &mut b) {
+        Some((c, v)) => {
+            choices = c;
+            viol = v;
+        }
+        None => {
+            let mut out = rf.clone();
+            out.notes.push("minimiser: the input did not reproduce in-process; left unchanged".into());
+            return out;
+        }
+    }
+    let before = (sc.all_ops().len(), sc.inputs.iter().map(|s| s.len()).sum::<usize>(), switches(&choices));
+    let mut progress = true;
+    while progress && b.execs < b.max {
+        progress = false;
+        'shape: loop {
+            for mut cand in shape_candidates(&sc) {
+                used_remap(&mut cand);
+                if let Some((c, v)) = fails(&cand, &class, &choices, 48, &mut b) {
+                    sc = cand;
+                    choices = c;
+                    viol = v;
+                    progress = true;
+                    continue 'shape;
+                }
+            }
+            break;
+        }
+        'inputs: loop {
+            for cand in input_candidates(&sc) {
+                if let Some((c, v)) = fails(&cand, &class, &choices, 24, &mut b) {
+                    sc = cand;
+                    choices = c;
+                    viol = v;
+                    progress = true;
+                    continue 'inputs;
+                }
+            }
+            break;
+        }
+        'sched: loop {
+            for cand in schedule_candidates(&choices) {
+                if b.execs >= b.max {
+                    break 'sched;
+                }
+                let rp = c18::reference_phase(&sc);
+                b.execs += 1;
+                let (v, st) = c18::execute(&rp, &SchedSpec::List { choices: cand }, false);
+                if v.iter().any(|x| x.class == class) && (switches(&st.choices) < switches(&choices) || st.choices.len() < choices.len()) {
+                    choices = st.choices.clone();
+                    viol = v;
+                    progress = true;
+                    continue 'sched;
+                }
+            }
+            break;
+        }
+    }
+    let after = (sc.all_ops().len(), sc.inputs.iter().map(|s| s.len()).sum::<usize>(), switches(&choices));
+    notes.push(format!("minimised in {} executions: ops {}→{}, input bytes {}→{}, context switches {}→{}", b.execs, before.0, after.0, before.1, after.1, before.2, after.2));
+    ReplayFile {
+        property: rf.property.clone(),
+        class,
+        provenance: rf.provenance.clone(),
+        prefix_run_indexes: vec![],
+        scenario: Some(sc),
+        sched: Some(SchedSpec::List { choices }),
+        aisle: None,
+        violations: viol.into_iter().filter(|v| v.class == rf.class).take(3).collect(),
+        minimised: true,
+        notes,
+    }
+}
+
+fn c11_fails(sc: &AisleScenario, class: &str) -> Option<Vec<Violation>> {
+    let (v, _) = c11::execute(sc);
+    v.iter().any(|x| x.class == class).then_some(v)
+}
+
+fn minimise_c11(rf: &ReplayFile) -> ReplayFile {
+    let class = rf.class.clone();
+    let mut sc = rf.aisle.clone().unwrap();
+    let Some(mut viol) = c11_fails(&sc, &class) else {
+        let mut out = rf.clone();
+        out.notes.push("minimiser: the input did not reproduce in-process; left unchanged".into());
+        return out;
+    };
+    let before = (sc.text.chars().count(), sc.ops_a.len() + sc.ops_b.len());
+    let mut progress = true;
+    let mut n = 0;
+    while progress && n < 20_000 {
+        progress = false;
+        let mut cands: Vec<AisleScenario> = Vec::new();
+        for which in 0..2 {
+            let len = if which == 0 { sc.ops_a.len() } else { sc.ops_b.len() };
+            for i in 0..len {
+                let mut c = sc.clone();
+                if which == 0 { c.ops_a.remove(i); } else { c.ops_b.remove(i); }
+                cands.push(c);
+            }
+            for i in 0..len {
+                let ops = if which == 0 { &sc.ops_a } else { &sc.ops_b };
+                if let AisleOp::Write { faults } = &ops[i] {
+                    for f in 0..faults.len() {
+                        let mut c = sc.clone();
+                        let o = if which == 0 { &mut c.ops_a[i] } else { &mut c.ops_b[i] };
+                        if let AisleOp::Write { faults } = o {
+                            faults.remove(f);
+                        }
+                        cands.push(c);
+                    }
+                }
+                if let AisleOp::Categorize { names } = &ops[i] {
+                    if names.len() > 1 {
+                        for f in 0..names.len() {
+                            let mut c = sc.clone();
+                            let o = if which == 0 { &mut c.ops_a[i] } else { &mut c.ops_b[i] };
+                            if let AisleOp::Categorize { names } = o {
+                                names.remove(f);
+                            }
+                            cands.push(c);
+                        }
+                    }
+                }
+            }
+        }
+        let chars: Vec<char> = sc.text.chars().collect();
+        let lines: Vec<&str> = sc.text.split_inclusive('\n').collect();
+        if lines.len() > 1 {
+            for l in 0..lines.len() {
+                let mut c = sc.clone();
+                c.text = lines.iter().enumerate().filter(|(j, _)| *j != l).map(|(_, s)| *s).collect();
+                cands.push(c);
+            }
+        }
+        for i in 0..chars.len() {
+            let mut c = sc.clone();
+            c.text = chars.iter().enumerate().filter(|(j, _)| *j != i).map(|(_, ch)| *ch).collect();
+            cands.push(c);
+        }
+        for c in cands {
+            n += 1;
+            if let Some(v) = c11_fails(&c, &class) {
+                sc = c;
+                viol = v;
+                progress = true;
+                break;
+            }
+        }
+    }
+    let mut notes = rf.notes.clone();
+    notes.push(format!("minimised in {n} executions: text chars {}→{}, ops {}→{}", before.0, sc.text.chars().count(), before.1, sc.ops_a.len() + sc.ops_b.len()));
+    ReplayFile {
+        property: rf.property.clone(),
+        class: class.clone(),
+        provenance: rf.provenance.clone(),
+        prefix_run_indexes: vec![],
+        scenario: None,
+        sched: None,
+        aisle: Some(sc),
+        violations: viol.into_iter().filter(|v| v.class == class).take(3).collect(),
+        minimised: true,
+        notes,
+    }
+}
+
+pub fn run(a: &Args) -> i32 {
+    let path = a.pos.get(1).cloned().unwrap_or_else(|| die("minimise needs a file"));
+    let out = a.str("out", &path);
+    let text = std::fs::read_to_string(&path).unwrap_or_else(|e| die(&format!("{path}: {e}")));
+    let rf: ReplayFile = serde_json::from_str(&text).unwrap_or_else(|e| die(&format!("{path}: {e}")));
+    let min = if rf.property == "C11" {
+        minimise_c11(&rf)
+    } else if rf.scenario.is_some() && rf.class != "history-dependence" {
+        minimise_c18(&rf, a.u64("max-execs", 4000))
+    } else {
+        let mut r = rf.clone();
+        r.notes.push("minimiser: class needs the worker's run prefix; not minimised".into());
+        r
+    };
+    std::fs::write(&out, serde_json::to_string_pretty(&min).unwrap()).unwrap_or_else(|e| die(&format!("{out}: {e}")));
+    for n in &min.notes {
+        println!("{n}");
+    }
+    0
 }
